@@ -52,7 +52,10 @@ def match(t, p, env=None):
         env[p.name] = t
         return True
     if isinstance(p, Pred):
-        return bool(p.fn(t))
+        try:
+            return bool(p.fn(t))
+        except (IndexError, TypeError, KeyError, AttributeError):
+            return False   # a predicate written for one tree shape met another shape: no match
     if isinstance(p, Peel):
         return match(peel(t, unwrap=p.unwrap), p.sub, env)
     if isinstance(p, Call):
